@@ -48,6 +48,13 @@ var (
 	shp        Shape
 )
 
+const (
+	c1 = 8080
+	c2 = 9090
+	cs = "localhost"
+	cf = 1.5
+)
+
 var (
 	i     int
 	s     string
@@ -81,6 +88,7 @@ var argTemplates = []string{"", "i", "i, i", "i, s", "i, i, i", "s, s", "b, b", 
 	"m", "m, m", "fn", "fn, sl", "fn, sl2", "fn, i", "fn, s", "fb, sl", "fb, sl2", "fn2", "fn2, i", "fnv", "fnv, i", "fnv3", "fnv3, i", "fnv3, s", "fnvs", "fnvs, sl2", "fcur", "f0", "f0, f0", "fs, s", "fn, fs",
 	"fRetIface, fTakesImpl", "fRetImpl, fTakesIfc", "fRetRecv, fTakesChan", "fRetErrIfc, fTakesImpE", "fTakesImpl, slShapes", "fTakesIfc, slSquares",
 	"slShapes, sq", "slSquares, shp", "slShapes, slSquares", "sq, shp", "shp, sq", "fTakesImpl, shp", "fTakesIfc, sq",
+	"1, 2", "1, \"a\"", "1.5, 2.5", "true, false", "c1, c2", "c1, cs", "cf, cf", "sl, 0", "sl, c1", "\"a\", \"b\"", "c1", "'x', 'y'",
 	"ch", "ch, ch", "fn, ch", "chch", "iface", "iface, iface", "st, st", "pst, pst", "pst", "nil", "nil, nil", "err, fb", "ffe, sl", "fn, fn", "fn2, fn", "i, fn", "ffe, ffe", "sl, fn"}
 
 func templateScenario(id, prefix, args string) *Scenario {
